@@ -555,8 +555,16 @@ def conn_reg_race(rng):
         threads.append(ops)
     threads[0] += [["join"], ["sleep", 3.0]]
     unsol = [[t_ops + 1.0, "@MAIN:VOL=-1.0"], [t_ops + 1.5, "@MAIN:VOL=-2.0"]]
-    if rng.random() < 0.5:
+    r_ = rng.random()
+    if r_ < 0.35:
         unsol.insert(0, [t_ops, "@MAIN:VOL=-0.5"])          # a delivery is in progress while the registrations race
+    elif r_ < 0.7:
+        # several deliveries fall into the instant of the registrations (each one looks at the collection while it is being changed), and the
+        # registering threads start a hair apart
+        for k_ in range(rng.randint(2, 5)):
+            unsol.insert(0, [round(t_ops + k_ * 0.00002, 6), f"@MAIN:VOL=-0.{k_}"])
+        for i_, ops_ in enumerate(threads):
+            ops_[0] = ["sleep", round(t_ops + i_ * rng.choice([0.0, 0.00001, 0.00003]), 6)]
     dev = {"type": "scripted", "latency": 0.02, "unsolicited": unsol}
     return {"kind": "conn", "device": dev, "log_size": 0, "threads": threads, "pre_register": pre, "callbacks": {},
             "hot": "register_message_callback|_call_registered_message_callbacks", "hot_budget": rng.choice([6, 12, 24])}
